@@ -9,11 +9,14 @@ import (
 	"crypto/sha256"
 	"encoding/binary"
 	"encoding/json"
+	"errors"
 	"fmt"
+	"github.com/istio-ecosystem/authservice/internal/oidc"
 	"io"
 	"net/url"
 	"os"
 	"os/exec"
+	"strconv"
 	"strings"
 	"sync"
 	"time"
@@ -30,10 +33,17 @@ type detReader struct {
 	buf       []byte
 	slowReads int
 	delay     time.Duration
+	failFrom  int // > 0: the failFrom-th read and every later one fail (a source that stops answering)
+	reads     int
 }
 
 func (r *detReader) Read(p []byte) (int, error) {
 	r.mu.Lock()
+	r.reads++
+	if r.failFrom > 0 && r.reads >= r.failFrom {
+		r.mu.Unlock()
+		return 0, errors.New("verif: the entropy source is unavailable")
+	}
 	slow := r.slowReads > 0
 	if slow {
 		r.slowReads--
@@ -95,6 +105,59 @@ func witnessSlowSource() (bool, bool, string) {
 	return false, true, "none"
 }
 
+// witnessFailingSource: if the values are a function of the source's content, then a source that fails (from its first
+// read, or after a few) leaves nothing to make them from: a generator that hands out values all the same took them from
+// somewhere else - the clock, a counter, a constant. Refusing (a panic, a blocked call, the runtime ending the process
+// because crypto/rand cannot be read) is failing closed. Each trial runs in a process of its own.
+func witnessFailingSource(self string) (bool, bool, string) {
+	ref, err := spawnChildMode(self, "failing:0")
+	if err != nil || len(ref) < 2 || len(ref[0]) < 3 || len(ref[1]) < 3 {
+		return false, false, "reference-draw-did-not-complete"
+	}
+	for k := 0; k < 3; k++ {
+		if ref[0][k] != ref[1][k] {
+			return false, false, "generator-is-not-a-function-of-the-source-content"
+		}
+	}
+	for _, from := range []int{1, 2, 9, 40} {
+		rows, err := spawnChildMode(self, fmt.Sprintf("failing:%d", from))
+		if err != nil || len(rows) == 0 {
+			continue // the process ended without values: refused
+		}
+		for k, name := range []string{"session-id", "nonce", "state"} {
+			if k < len(rows[0]) && rows[0][k] != "" && rows[0][k] != ref[0][k] {
+				return true, true, fmt.Sprintf("%s-issued-although-the-entropy-source-fails-from-read-%d", name, from)
+			}
+		}
+	}
+	return false, true, "none"
+}
+
+// runFailingChild draws a session id, a nonce and a state from a source of known content that fails from its n-th read on
+// (n = 0: never; then the draw is made twice, to show that the values are a function of the content). A value that cannot
+// be drawn is printed empty.
+func runFailingChild(n int) {
+	draw := func() []string {
+		out := []string{"", "", ""}
+		withReader(&detReader{seed: 11, failFrom: n}, func() {
+			g := oidc.NewRandomGenerator()
+			for k, f := range []func() string{g.GenerateSessionID, g.GenerateNonce, g.GenerateState} {
+				func() {
+					defer func() { _ = recover() }()
+					out[k] = f()
+				}()
+			}
+		})
+		return out
+	}
+	rows := [][]string{draw()}
+	if n == 0 {
+		rows = append(rows, draw())
+	}
+	b, _ := json.Marshal(rows)
+	fmt.Println("ENTROPY-CHILD " + string(b))
+}
+
 // childLogins is what a fresh process prints: the values of its first logins.
 func childLogins(n int) []loginValues {
 	out := make([]loginValues, 0, n)
@@ -105,6 +168,11 @@ func childLogins(n int) []loginValues {
 }
 
 func runEntropyChild() {
+	if m := os.Getenv("VERIF_ENTROPY_CHILD"); strings.HasPrefix(m, "failing:") {
+		n, _ := strconv.Atoi(strings.TrimPrefix(m, "failing:"))
+		runFailingChild(n)
+		return
+	}
 	ls := childLogins(3)
 	var rows [][]string
 	for _, l := range ls {
@@ -114,9 +182,11 @@ func runEntropyChild() {
 	fmt.Println("ENTROPY-CHILD " + string(b))
 }
 
-func spawnChild(self string) ([][]string, error) {
-	cmd := exec.Command(self, "-test.run", "^TestEntropyChild$")
-	cmd.Env = append(os.Environ(), "VERIF_ENTROPY_CHILD=1")
+func spawnChild(self string) ([][]string, error) { return spawnChildMode(self, "1") }
+
+func spawnChildMode(self, mode string) ([][]string, error) {
+	cmd := exec.Command(self, "-test.run", "^TestEntropyChild$", "-test.timeout", "60s")
+	cmd.Env = append(os.Environ(), "VERIF_ENTROPY_CHILD="+mode)
 	out, err := cmd.CombinedOutput()
 	if err != nil {
 		return nil, fmt.Errorf("child: %v: %s", err, out)
